@@ -36,7 +36,69 @@ let cmd_ranges args =
     end;
     print_endline (Buffer.contents buf))
 
+(* ---------------------------------------------------------------- lexer *)
+let hex_decode s =
+  let n = String.length s / 2 in
+  List.init n (fun i -> z_of_int (int_of_string ("0x" ^ String.sub s (2 * i) 2)))
+let hex_encode l =
+  String.concat "" (List.map (fun z -> Printf.sprintf "%02x" (int_of_z z)) l)
+
+let read_dfa file =
+  let ic = open_in file in
+  let n = int_of_string (String.trim (input_line ic)) in
+  let rows = ref [] and acts = ref [] in
+  for _ = 1 to n do
+    let ws = List.map int_of_string (words (input_line ic)) in
+    match ws with
+    | acc :: dflt :: k :: rest ->
+      let rec triples k l = if k = 0 then [] else match l with
+        | lo :: hi :: nx :: t -> ((z_of_int lo, z_of_int hi), z_of_int nx) :: triples (k - 1) t
+        | _ -> failwith "bad row" in
+      rows := { cases = triples k rest; dflt = z_of_int dflt } :: !rows;
+      acts := z_of_int acc :: !acts
+    | _ -> failwith "bad row"
+  done;
+  close_in ic;
+  table_dfa (List.rev !rows) (List.rev !acts)
+
+let cmd_lex file =
+  let d = read_dfa file in
+  let scan1 l = scan decode_rune d l in
+  iter_lines (fun line ->
+    let buf = Buffer.create 256 in
+    let src = ref [] and l = ref (init []) in
+    let emit t =
+      Buffer.add_string buf (Printf.sprintf "%d:%s:%d:%d:%d " (int_of_z t.ty) (hex_encode t.lit)
+        (int_of_z t.toff) (int_of_z t.tline) (int_of_z t.tcol)) in
+    let scans k =
+      let after = ref (-1) and i = ref 0 in
+      while !i < k && !after <> 0 do
+        (match scan1 !l with
+         | None -> Buffer.add_string buf "FUEL "; after := 0
+         | Some (t, l') ->
+           l := l'; emit t;
+           if !after > 0 then decr after else if int_of_z t.ty = 1 then after := 2);
+        incr i
+      done in
+    List.iter (fun op ->
+      (match op.[0] with
+       | 'N' | 'E' -> src := hex_decode (String.sub op 1 (String.length op - 1)); l := init !src
+       | 'S' -> scans (int_of_string (String.sub op 1 (String.length op - 1)))
+       | 'A' -> scans (List.length !src + 6)
+       | 'R' -> l := reset !src !l
+       | _ -> ());
+      Buffer.add_string buf "| ") (words line);
+    print_endline (Buffer.contents buf))
+
+(* utf8: hex bytes per line -> "rune size" *)
+let cmd_utf8 () =
+  iter_lines (fun line ->
+    let (r, sz) = decode_rune (hex_decode (String.trim line)) in
+    Printf.printf "%d %d\n" (int_of_z r) (int_of_nat sz))
+
 let () =
   match Array.to_list Sys.argv with
   | _ :: "ranges" :: args -> cmd_ranges args
+  | _ :: "lex" :: file :: _ -> cmd_lex file
+  | _ :: "utf8" :: _ -> cmd_utf8 ()
   | _ -> prerr_endline "usage: modelrun <command>"; exit 2
